@@ -134,6 +134,7 @@ func loadEngine(repo, trustedDir string) (*Engine, error) {
 		e.contracts[key] = c
 	}
 	e.findEscaping()
+	e.checkImmutableWriters()
 	e.purePkgs = map[string]bool{}
 	for _, p := range []string{"fmt", "strings", "strconv", "bytes", "errors", "math", "unicode", "unicode/utf8", "time",
 		"github.com/pkg/errors", "github.com/michaelquigley/pfxlog", "github.com/sirupsen/logrus", "github.com/google/uuid",
@@ -584,4 +585,87 @@ func (e *Engine) closedWorld(t types.Type) bool {
 		return false
 	}
 	return len(e.implementors(t)) > 0
+}
+
+// checkImmutableWriters: an `immutable` declaration is only as good as the list of functions that write the field.
+// Functions under contract get an `immutable` obligation per write; a function outside every contract that writes such
+// a field on an object it did not allocate itself is an engine error, so the declaration cannot silently go stale.
+func (e *Engine) checkImmutableWriters() {
+	if len(e.cs.Immutable) == 0 {
+		return
+	}
+	isImm := func(prefix string) bool {
+		for _, n := range e.cs.Immutable {
+			if n == prefix || strings.HasPrefix(n, prefix+".") {
+				return true
+			}
+		}
+		return false
+	}
+	var structWrites func(t types.Type, out *[]string)
+	structWrites = func(t types.Type, out *[]string) {
+		st, ok := under(t).(*types.Struct)
+		if !ok || isTypeParam(t) {
+			return
+		}
+		for i := 0; i < st.NumFields(); i++ {
+			f := st.Field(i)
+			if _, isS := under(f.Type()).(*types.Struct); isS && !isTypeParam(f.Type()) {
+				structWrites(f.Type(), out)
+				continue
+			}
+			*out = append(*out, "H."+ownerKey(t)+"."+f.Name())
+		}
+	}
+	var ownAlloc func(v ssa.Value) bool
+	ownAlloc = func(v ssa.Value) bool {
+		switch x := v.(type) {
+		case *ssa.Alloc:
+			return true
+		case *ssa.FieldAddr:
+			return ownAlloc(x.X)
+		case *ssa.IndexAddr:
+			return ownAlloc(x.X)
+		}
+		return false
+	}
+	var fns []*ssa.Function
+	for fn := range ssautil.AllFunctions(e.prog) {
+		if fn.Pkg == nil || !strings.HasPrefix(fn.Pkg.Pkg.Path(), repoMod) || fn.Synthetic != "" {
+			continue
+		}
+		fns = append(fns, fn)
+	}
+	sort.Slice(fns, func(i, j int) bool { return fns[i].String() < fns[j].String() })
+	for _, fn := range fns {
+		if e.contracts[keyOfFunction(fn)] != nil {
+			continue
+		}
+		for _, b := range fn.Blocks {
+			for _, in := range b.Instrs {
+				st, ok := in.(*ssa.Store)
+				if !ok || ownAlloc(st.Addr) {
+					continue
+				}
+				var names []string
+				if fa, ok := st.Addr.(*ssa.FieldAddr); ok {
+					if owner := elemOf(fa.X.Type()); owner != nil && !isTypeParam(owner) {
+						if s, ok := under(owner).(*types.Struct); ok {
+							f := s.Field(fa.Field)
+							if _, isS := under(f.Type()).(*types.Struct); !isS || isTypeParam(f.Type()) {
+								names = append(names, "H."+ownerKey(owner)+"."+f.Name())
+							}
+						}
+					}
+				}
+				structWrites(st.Val.Type(), &names)
+				for _, n := range names {
+					if isImm(n) {
+						e.errors = append(e.errors, fmt.Sprintf("%s: %s writes %s, which is declared immutable, on an object it did not allocate, and is not under contract",
+							e.fset.Position(st.Pos()), displayKey(keyOfFunction(fn)), n))
+					}
+				}
+			}
+		}
+	}
 }
